@@ -54,13 +54,22 @@ Definition eye (n : nat) : list (list K) :=
 Definition eqK (a b : K) : bool := leb a b && leb b a.
 
 (* ------------------------------------------------------------------------------------------------ *)
-(* splineutil.c: bspline (static; right-continuous Cox-de Boor WITHOUT a guard against 0/0) *)
+(* splineutil.c: bspline (static; right-continuous Cox-de Boor; since fix 33ef56f a term whose denominator vanishes —
+   repeated knots — is skipped instead of dividing 0/0):
+     double a = 0, b = 0;
+     if (n == 0) return (x >= knots[i] && x < knots[i+1]) ? 1.0 : 0.0;
+     if (knots[i+n]   != knots[i])   a = (x - knots[i])*bspline(knots, x, i, n-1) / (knots[i+n] - knots[i]);
+     if (knots[i+n+1] != knots[i+1]) b = (knots[i+n+1] - x)*bspline(knots, x, i+1, n-1) / (knots[i+n+1] - knots[i+1]);
+     return a + b;
+   The same function as GridModel.bspline_guarded (C17), with nat indices: C09_Basis.fit_bspline_is_guarded. *)
 Fixpoint bspline (kn : nat -> K) (x : K) (i : nat) (n : nat) : K :=
   match n with
   | O => if leb (kn i) x && ltb x (kn (i + 1)) then one else zero          (* x >= knots[i] && x < knots[i+1] *)
   | S n' =>
-      add (div (mul (sub x (kn i)) (bspline kn x i n')) (sub (kn (i + n)) (kn i)))
-          (div (mul (sub (kn (i + n + 1)) x) (bspline kn x (i + 1) n')) (sub (kn (i + n + 1)) (kn (i + 1))))
+      add (if eqK (kn (i + n)) (kn i) then zero
+           else div (mul (sub x (kn i)) (bspline kn x i n')) (sub (kn (i + n)) (kn i)))
+          (if eqK (kn (i + n + 1)) (kn (i + 1)) then zero
+           else div (mul (sub (kn (i + n + 1)) x) (bspline kn x (i + 1) n')) (sub (kn (i + n + 1)) (kn (i + 1))))
   end.
 
 (* splineutil.c: bsplinebasis — npts rows, nknots-order-1 columns *)
